@@ -69,6 +69,14 @@ CHECKS = {
                 "ymin<=ymax assumed; at most 400 decisions per path (never hit)",
         "technique": "symbolic execution of the Python source on z3 real terms + SMT (QF_NRA) obligations per path, counterexample replay",
     },
+    "C14": {
+        "text": "rtree.Index construction and intersection are executed on N boxes plus a query box with all 4N+4 coordinates unbounded "
+                "symbolic reals (degenerate boxes allowed); every combination of quadrant-test, recursion and pruning outcomes is a path, "
+                "and on each path z3 (linear real arithmetic) proves for every identifier that it is returned exactly when its box shares "
+                "a point with the query. Construction terminating is observed on every path.",
+        "note": "N <= 2 (quick) / N <= 3 (thorough); exact-real model of the mean-centre arithmetic; min/max as If-terms",
+        "technique": "symbolic execution of the Python source on z3 real terms + SMT (QF_LRA) obligations per path, counterexample replay",
+    },
     "C15": {
         "text": "Reported versions are symbolic digit strings inside the real banner; both min_version layers, EBB3.connect (solver-chosen "
                 "handshake: empty / non-EBB / banner / SerialException per probe, open failure, no board; fresh and re-used object) and "
